@@ -49,3 +49,68 @@ PROPS["C02"] = {
     ],
     "assumptions": COMMON_K + COMMON_M + ["outside: delete fan-out count at Storage level, duplicate-write guard, HashMap equality of Meta"],
 }
+
+PROPS["C02"]["mir"].append(ob("blob_delete", "ob_blob", "blob_delete"))
+
+PROPS["C03"] = {
+    "level": "model_checking",
+    "kani": [
+        H("c03_validate_exact_k2", "BPTreeFileIndex::validate accepts a header iff written, version 6, key size, exact blob size, magic",
+          ["<BPTreeFileIndex<ArrayKey<2>> as FileIndexTrait>::validate", "IndexHeader::{is_written,version,key_size,blob_size,magic_byte}"],
+          "all header field values, all blob sizes; K = ArrayKey<2>", covers=4, timeout=600),
+        H("c03_validate_exact_k8", "same for K = ArrayKey<8>", ["<BPTreeFileIndex<ArrayKey<8>> as FileIndexTrait>::validate"],
+          "all header field values, all blob sizes", covers=4, timeout=600, tier="thorough"),
+        H("c03_written_bit_packing", "written bit and version share one byte without interference; defaults",
+          ["IndexHeader::{set_written,is_written,version,set_version,default}"], "all u8 versions", covers=1, timeout=120),
+    ],
+    "mir": [ob("load_index_fallback", "ob_blob", "load_index_fallback")],
+    "assumptions": COMMON_K + COMMON_M + ["outside: next_blob_id / directory listing, equality of answers across a real re-open, SHA-256 of the index body"],
+}
+
+PROPS["C04"] = {
+    "level": "model_checking",
+    "kani": [],
+    "mir": [ob("push_deletion_loads_first", "ob_blob", "push_deletion_loads_first"),
+            ob("restore_loads_index", "ob_storage", "restore_loads_index")],
+    "assumptions": COMMON_M + ["outside: interleavings with background work, free_excess_resources, runtime flavours"],
+}
+
+PROPS["C11"] = {
+    "level": "model_checking",
+    "kani": [],
+    "mir": [ob("dump_failure_keeps_headers", "ob_index", "dump_failure_keeps_headers"),
+            ob("write_mut_order", "ob_blob", "write_mut_order"),
+            ob("blob_write_order", "ob_blob", "blob_write_order")],
+    "assumptions": COMMON_M + ["faults are modelled as arbitrary Err results of the callee futures (write_to_file, from_records, serialize_filters)",
+                               "outside: post-restart state, background-task logging"],
+}
+
+PROPS["C12"] = {
+    "level": "model_checking",
+    "kani": [H("c12_fsync_accounting", "File::fsyncdata: after Ok no dirty bytes w.r.t. the size at the call and the model saw a sync; after Err synced_size unchanged",
+               ["File::fsyncdata", "File::dirty_bytes", "File::size", "File::synced_size"], "file size <= 32, one symbolic fault, 0..2 Pending polls", covers=2, timeout=900)],
+    "mir": [ob("dump_order", "ob_blob", "dump_order"), ob("write_header_order", "ob_blob", "write_header_order")],
+    "assumptions": COMMON_K + COMMON_M + ["call-order level: 'synced' = the sync future completed with Ok before the next step started",
+                                          "outside: 'a sync happens without further client action' (worker task), single-flight under concurrency"],
+}
+
+PROPS["C13"] = {
+    "level": "model_checking",
+    "kani": [],
+    "mir": [ob("worker_survives", "ob_storage", "worker_survives")],
+    "assumptions": COMMON_M + ["safety kernel only: process_msg never returns Err for an inapplicable lifecycle request (run() panics on Err)",
+                               "outside: liveness itself (rotation eventually happens, dumps complete, close returns): tokio scheduler, mpsc, timers"],
+}
+
+PROPS["C14"] = {
+    "level": "model_checking",
+    "kani": [],
+    "mir": [ob("write_mut_order_c14", "ob_blob", "write_mut_order"), ob("blob_write_order_c14", "ob_blob", "blob_write_order")],
+    "assumptions": COMMON_M + ["claim: no suspension point lies between the completed file write and the index insertion",
+                               "outside: Storage-level futures, reservation inside the blocking closure (file level)"],
+}
+
+PROPS["C04"]["mir"].append(ob("close_active_order_c04", "ob_storage", "close_active_order"))
+PROPS["C11"]["mir"] += [ob("worker_survives_io", "ob_storage", "worker_survives_io"), ob("close_active_order_c11", "ob_storage", "close_active_order")]
+PROPS["C12"]["mir"] += [ob("close_active_order", "ob_storage", "close_active_order"), ob("explicit_fsync", "ob_storage", "explicit_fsync")]
+PROPS["C13"]["mir"].append(ob("worker_survives_io_c13", "ob_storage", "worker_survives_io"))
